@@ -214,6 +214,16 @@ class Run:
             at = (max(ls) - 1) if ls else 0
             inv_mm = dict(i=at, op=None, cls="invariant/" + inv.group(1), expected="trace-spec invariant " + inv.group(1) + " holds in every state",
                           observed=dict(kind="invariant-violated"))
+        # TLC could not even evaluate the trace spec on an event (an operator applied outside its domain: index out of range,
+        # missing record field, non-enumerable value ...). The trace specs are total on every well-formed outcome, and on the
+        # unchanged tree this never happens; when it does, the implementation logged something outside the specification's
+        # vocabulary. It is reported as a candidate violation of class "spec-evaluation-failed" at the event reached.
+        if not accepted and inv_mm is None and re.search(r"Error: (TLC threw|The error occurred|Attempted to|The first argument|In evaluation)", txt) and not expect_reject:
+            ls = [int(x) for x in re.findall(r"^/\\ l = (\d+)", txt, flags=re.M)]
+            at = max(ls) if ls else 0
+            reason = re.search(r"(Attempted to[^\n]*|The first argument[^\n]*|which is out of bounds[^\n]*)", txt)
+            inv_mm = dict(i=at, op=None, cls="spec-evaluation-failed", expected="an outcome within the specification's vocabulary",
+                          observed=dict(kind="unexplainable", reason=reason.group(1) if reason else "TLC evaluation error"))
         if expect_reject:
             return (not accepted) or len(mm) > 0, mm
         if not accepted and inv_mm is None:
